@@ -131,7 +131,11 @@ func (db *PreparedStmtDB) prepare(ctx context.Context, conn ConnPool, isTransact
 		verifPoint("ps:prepfail", ctx, &cacheStmt)
 		cacheStmt.prepareErr = err
 		db.Mux.Lock()
-		delete(db.Stmts, query)
+		// only remove the entry this call inserted: the map may hold a newer entry after Reset or
+		// after a non-transaction request replaced a transaction-only entry
+		if cached, ok := db.Stmts[query]; ok && cached == &cacheStmt {
+			delete(db.Stmts, query)
+		}
 		db.Mux.Unlock()
 		return Stmt{}, err
 	}
@@ -175,7 +179,9 @@ func (db *PreparedStmtDB) ExecContext(ctx context.Context, query string, args ..
 			db.Mux.Lock()
 			defer db.Mux.Unlock()
 			go stmt.Close()
-			delete(db.Stmts, query)
+			if cached, ok := db.Stmts[query]; ok && cached.Stmt == stmt.Stmt {
+				delete(db.Stmts, query)
+			}
 		}
 	}
 	return result, err
@@ -192,7 +198,9 @@ func (db *PreparedStmtDB) QueryContext(ctx context.Context, query string, args .
 			defer db.Mux.Unlock()
 
 			go stmt.Close()
-			delete(db.Stmts, query)
+			if cached, ok := db.Stmts[query]; ok && cached.Stmt == stmt.Stmt {
+				delete(db.Stmts, query)
+			}
 		}
 	}
 	return rows, err
@@ -248,7 +256,9 @@ func (tx *PreparedStmtTX) ExecContext(ctx context.Context, query string, args ..
 			defer tx.PreparedStmtDB.Mux.Unlock()
 
 			go stmt.Close()
-			delete(tx.PreparedStmtDB.Stmts, query)
+			if cached, ok := tx.PreparedStmtDB.Stmts[query]; ok && cached.Stmt == stmt.Stmt {
+				delete(tx.PreparedStmtDB.Stmts, query)
+			}
 		}
 	}
 	return result, err
@@ -265,7 +275,9 @@ func (tx *PreparedStmtTX) QueryContext(ctx context.Context, query string, args .
 			defer tx.PreparedStmtDB.Mux.Unlock()
 
 			go stmt.Close()
-			delete(tx.PreparedStmtDB.Stmts, query)
+			if cached, ok := tx.PreparedStmtDB.Stmts[query]; ok && cached.Stmt == stmt.Stmt {
+				delete(tx.PreparedStmtDB.Stmts, query)
+			}
 		}
 	}
 	return rows, err
